@@ -246,7 +246,20 @@ def check_table(ctx, tu, info):
                 pl = path(f, f.strip_all_casts(f.nodes[news[0]]['placement'][0]))
                 ok = ok and root_var_id(pl) == f.params[1]['id']
                 cons = f.nodes[news[0]].get('construct')
-                srcs = {f.decl(d).get('id') for d in ([cons] + f.descendants(cons) if cons else []) if f.nodes[d]['cls'] == 'DeclRefExpr' and f.decl(d)['kind'] == 'parm'}
+                def param_roots(n, depth=0):
+                    out = set()
+                    for d in [n] + f.descendants(n):
+                        if f.nodes[d]['cls'] != 'DeclRefExpr':
+                            continue
+                        dd = f.decl(d)
+                        if dd['kind'] == 'parm':
+                            out.add(dd.get('id'))
+                        elif dd['kind'] == 'var' and depth < 3:
+                            vd = f.var_decls().get(dd['id'])
+                            if vd and vd.get('init'):
+                                out |= param_roots(vd['init'], depth + 1)      # a local that merely names the (cast) source
+                    return out
+                srcs = param_roots(cons) if cons else set()
                 ok = ok and srcs == {f.params[0]['id']}
                 # the source is handed to the constructor as an unconditional rvalue (std::move / static_cast<T&&>), so that the
                 # move constructor is selected whenever there is one
